@@ -26,6 +26,8 @@ type cliStreamCase struct {
 	UnsetTraceback bool `json:"unset_traceback,omitempty"`
 	// FileArg: the input is passed as a file argument instead of stdin.
 	FileArg bool `json:"file_arg,omitempty"`
+	// HTML: pp -html <file>: the dumps go to the file, everything else to stdout as always.
+	HTML bool `json:"html,omitempty"`
 }
 
 func (c *cliStreamCase) run(in []byte, args []string, tag string) ppResult {
@@ -43,6 +45,11 @@ func (c *cliStreamCase) run(in []byte, args []string, tag string) ppResult {
 func cliStreamEval(r *core.Run, c *cliStreamCase) {
 	in := c.Stream.Render()
 	args := append([]string{"-rebase=false"}, c.Args...)
+	if c.HTML {
+		hf := filepath.Join(os.Getenv("VERIF_WORK"), fmt.Sprintf("cli-html-%d.html", cliFileSeq.Add(1)))
+		defer os.Remove(hf)
+		args = append(args, "-html", hf)
+	}
 	res := c.run(in, args, "s")
 	r.Eval(1)
 	report := func(key, what string) { r.Violation(key, what, "clistream", c) }
@@ -97,7 +104,7 @@ func cliStreamEval(r *core.Run, c *cliStreamCase) {
 func runC02(r *core.Run) {
 	r.Rule("(a) generated streams T0 D1 T1 .. Dk Tk with every junk hazard (separator / WARNING lines, near-miss headers, binary, > 16 KiB lines, no final EOL, CRLF), goroutine dumps and race reports, under the resume protocol with per-call byte accounting P ++ X ++ S == consumed input and X == exactly the dump's span; " +
 		"(b) every sequence of L line kinds from every scanner state (conservation clause only); (c) inputs without any dump reproduced identically; " +
-		"(d) the pp binary: stdout == stream with each dump replaced by pp(dump alone), exit 0. distinct by hash of the stream; non-trivial = stream with >= 1 dump and >= 1 non-empty text segment, or a dump-free stream with a separator/near-miss line")
+		"(d) the pp binary (stdin or file argument, now and then with -html): stdout == stream with each dump replaced by pp(dump alone), exit 0. distinct by hash of the stream; non-trivial = stream with >= 1 dump and >= 1 non-empty text segment, or a dump-free stream with a separator/near-miss line")
 	r.Assume("the three end-of-stream inputs pinned by RaceHdr2Err..4Err are generated a fixed 3 times (known finding)")
 	n := r.N(8000, 300000)
 	core.Parallel(n, workers(), func(i int) {
@@ -154,6 +161,7 @@ func runC02(r *core.Run) {
 		}
 		c.UnsetTraceback = i%4 == 2
 		c.FileArg = i%5 == 3
+		c.HTML = i%7 == 4
 		cliStreamEval(r, c)
 		r.Distinct(core.Hash64(c.Stream.Render()))
 	})
